@@ -5,7 +5,7 @@
 From Coq Require Import List ZArith NArith Bool.
 Import ListNotations.
 From DD Require Import Base.PyStr Base.Value Pickle.Vm Pickle.Codec Pickle.PickleProofs Pickle.CodecProofs Pickle.JsonProofs
-  Pickle.Encodes Pickle.EncodesProofs.
+  Pickle.Encodes Pickle.EncodesProofs Path.PathModel Delta.DeltaModel Pickle.DeltaCodec Pickle.DeltaCodecProofs.
 
 (* pickle_load(dump of d) = d for EVERY well-formed payload d (any nesting, every
    category's vocabulary: values, type objects, NoneType, sets, frozensets, tuples,
@@ -34,6 +34,34 @@ Theorem C14_same_behaviour : forall (B : Type) (behaviour : pv -> B) (w : world)
   option_map behaviour (load w (enc_prog d)) = Some (behaviour d).
 Proof. exact same_behaviour. Qed.
 Print Assumptions C14_same_behaviour.
+
+(* THE statement of the property, on the model of Delta application (Delta/DeltaModel.v, tied to
+   delta.py by C01/C08's correspondence): a delta d of the application model, persisted as the
+   payload Delta.diff holds (pv_of_delta: path strings, type objects, Opcode records ...), dumped
+   and reloaded (pickle_load, then the payload read back with the model of deepdiff's path parser)
+   is the same delta - so t + reloaded = t + d and t - reloaded = t - d on EVERY base, for every
+   conversion / ordering oracle.  Hypotheses: the process resolves the payload's classes, the
+   payload is a well-formed dict (distinct paths per category), and every path prints and parses
+   back (delta_ok: the C09 guard path_ok on normalised paths) *)
+Theorem C14_reloaded_delta_same_result :
+  forall conv rem_order add_order (w : world) (d : delta),
+  calls_ok w -> types_ok w (pv_of_delta d) -> wfp (pv_of_delta d) = true -> delta_ok d ->
+  exists d', reload w (d_bidir d) (enc_prog (pv_of_delta d)) = Some d' /\
+    (forall base, apply conv rem_order add_order d' base = apply conv rem_order add_order d base) /\
+    (forall base, sub conv rem_order add_order d' base = sub conv rem_order add_order d base).
+Proof. intros conv ro ao. exact (reloaded_same_result conv ro ao). Qed.
+Print Assumptions C14_reloaded_delta_same_result.
+
+(* the same for every dump in the encoding class accepts *)
+Theorem C14_reloaded_delta_same_result_accepted :
+  forall conv rem_order add_order (w : world) (prog : list op) (d : delta),
+  calls_ok w -> types_ok w (pv_of_delta d) -> wfp (pv_of_delta d) = true -> delta_ok d ->
+  accepts prog (pv_of_delta d) = true ->
+  exists d', reload w (d_bidir d) prog = Some d' /\
+    (forall base, apply conv rem_order add_order d' base = apply conv rem_order add_order d base) /\
+    (forall base, sub conv rem_order add_order d' base = sub conv rem_order add_order d base).
+Proof. exact reloaded_same_result_accepted. Qed.
+Print Assumptions C14_reloaded_delta_same_result_accepted.
 
 (* dumping the reloaded delta again gives the same dump, which loads to the same payload *)
 Theorem C14_redump_equivalent : forall (w : world) (d d' : pv),
